@@ -706,6 +706,65 @@ func ruleArrayLengthFolded(c *Ctx, rule string) {
 			}
 			return true
 		})
+		// the type remembered before the dereference is stale afterwards: `tin := arg.Type; ...; arg = c.Deref(arg)`
+		// must be followed, in the same block, by `tin = arg.Type`
+		ast.Inspect(fd.Body, func(m ast.Node) bool {
+			blk, ok := m.(*ast.BlockStmt)
+			var list []ast.Stmt
+			if ok {
+				list = blk.List
+			} else if cc, ok := m.(*ast.CaseClause); ok {
+				list = cc.Body
+			} else {
+				return true
+			}
+			for i, st := range list {
+				as, ok := st.(*ast.AssignStmt)
+				if !ok || as.Tok != token.ASSIGN || len(as.Lhs) != 1 || len(as.Rhs) != 1 {
+					continue
+				}
+				call, ok := unparen(as.Rhs[0]).(*ast.CallExpr)
+				if !ok || funcFullName(calleeOf(info, call)) != "fast.Comp.Deref" || len(call.Args) != 1 {
+					continue
+				}
+				lid, ok1 := as.Lhs[0].(*ast.Ident)
+				aid, ok2 := unparen(call.Args[0]).(*ast.Ident)
+				if !ok1 || !ok2 || info.Uses[lid] == nil || info.Uses[lid] != info.Uses[aid] {
+					continue
+				}
+				argObj := info.Uses[lid]
+				// locals whose first definition is arg.Type
+				isTypeOfArg := func(e ast.Expr) bool {
+					se, ok := unparen(e).(*ast.SelectorExpr)
+					if !ok || se.Sel.Name != "Type" {
+						return false
+					}
+					id, ok := unparen(se.X).(*ast.Ident)
+					return ok && info.Uses[id] == argObj
+				}
+				for obj, defs := range di.defs {
+					derived := false
+					for _, d := range defs {
+						if d != nil && isTypeOfArg(d) {
+							derived = true
+						}
+					}
+					if !derived || obj.Pos() > as.Pos() {
+						continue
+					}
+					refreshed := false
+					for _, later := range list[i+1:] {
+						if a2, ok := later.(*ast.AssignStmt); ok && len(a2.Lhs) == 1 && len(a2.Rhs) == 1 {
+							if id, ok := a2.Lhs[0].(*ast.Ident); ok && info.Uses[id] == obj && isTypeOfArg(a2.Rhs[0]) {
+								refreshed = true
+							}
+						}
+					}
+					c.Ob(rule, funcKey(pk, fd)+"/"+obj.Name()+"-refreshed", as, refreshed, "after "+exprString(as.Lhs[0])+" is replaced by its dereference, "+obj.Name()+" (its type) is read again: the array test below looks at the element type, not at the pointer type")
+				}
+			}
+			return true
+		})
 		key := funcKey(pk, fd) + "/array-folded"
 		if folded {
 			c.Ob(rule, key, at, true, "for an array the run-time function ignores its argument: a nil pointer to array is never dereferenced")
@@ -907,4 +966,628 @@ func ruleEllipsisCallSlice(c *Ctx, rule string) {
 	if n < 4 {
 		c.Ob(rule, "fast/ellipsis-tests", nil, false, fmt.Sprintf("%d tests of Call.Ellipsis found, at least 4 expected", n))
 	}
+}
+
+// ruleCacheRefreshGuard (V3): a run-time closure that memoises the Go function extracted from a slot value
+// (`cachedfun = funv.Interface().(func() string)`, a variable captured from the compiler's scope) must notice when
+// the slot holds another value: a function redefined later is stored in the same slot. The memo is written only in
+// the body of an `if` whose condition compares, with !=, the value just read with a captured reflect value, and the
+// same body records the value just read in that captured variable.
+func ruleCacheRefreshGuard(c *Ctx, rule string) {
+	pk := c.P.Pkg("fast")
+	if pk == nil {
+		c.Fatal("package fast not loaded")
+		return
+	}
+	info := pk.TypesInfo
+	isXV := func(e ast.Expr) bool {
+		t := info.TypeOf(e)
+		return t != nil && isNamedType(t, "xreflect", "Value") && !isPtr(t)
+	}
+	total := 0
+	for _, fd := range c.P.FuncsOf("fast") {
+		if fd.Body == nil {
+			continue
+		}
+		fkey := funcKey(pk, fd)
+		n, bad := 0, 0
+		var firstBad ast.Node
+		why := ""
+		ast.Inspect(fd.Body, func(nd ast.Node) bool {
+			lit, ok := nd.(*ast.FuncLit)
+			if !ok || !isSigWithEnv(info.TypeOf(lit)) {
+				return true
+			}
+			parent := map[ast.Node]ast.Node{}
+			var stack []ast.Node
+			ast.Inspect(lit.Body, func(m ast.Node) bool {
+				if m == nil {
+					stack = stack[:len(stack)-1]
+					return true
+				}
+				if len(stack) > 0 {
+					parent[m] = stack[len(stack)-1]
+				}
+				stack = append(stack, m)
+				return true
+			})
+			captured := func(e ast.Expr) types.Object {
+				id, ok := unparen(e).(*ast.Ident)
+				if !ok {
+					return nil
+				}
+				o := info.Uses[id]
+				if o == nil || (o.Pos() >= lit.Pos() && o.Pos() < lit.End()) {
+					return nil
+				}
+				if _, isVar := o.(*types.Var); !isVar {
+					return nil
+				}
+				return o
+			}
+			ast.Inspect(lit.Body, func(m ast.Node) bool {
+				as, ok := m.(*ast.AssignStmt)
+				if !ok || as.Tok != token.ASSIGN || len(as.Lhs) != 1 || len(as.Rhs) != 1 || captured(as.Lhs[0]) == nil {
+					return true
+				}
+				ta, ok := unparen(as.Rhs[0]).(*ast.TypeAssertExpr)
+				if !ok {
+					return true
+				}
+				call, ok := unparen(ta.X).(*ast.CallExpr)
+				if !ok {
+					return true
+				}
+				se, ok := unparen(call.Fun).(*ast.SelectorExpr)
+				if !ok || se.Sel.Name != "Interface" || !isXV(se.X) {
+					return true
+				}
+				src, ok := unparen(se.X).(*ast.Ident)
+				if !ok {
+					return true
+				}
+				n++
+				total++
+				srcObj := info.Uses[src]
+				good := false
+				reason := "the memo is refreshed outside any test of the slot's current value"
+				var blk *ast.BlockStmt
+				var ifs *ast.IfStmt
+				for p := ast.Node(as); p != nil; p = parent[p] {
+					if b, ok := parent[p].(*ast.BlockStmt); ok {
+						if i, ok := parent[b].(*ast.IfStmt); ok && i.Body == b {
+							blk, ifs = b, i
+							break
+						}
+					}
+				}
+				if ifs != nil {
+					reason = "the condition `" + exprString(ifs.Cond) + "` does not compare the value just read (" + src.Name + ") with a remembered one"
+					var key types.Object
+					for _, a := range orAtoms(ifs.Cond) {
+						be, ok := unparen(a).(*ast.BinaryExpr)
+						if !ok || be.Op != token.NEQ || !isXV(be.X) || !isXV(be.Y) {
+							continue
+						}
+						for _, pr := range [][2]ast.Expr{{be.X, be.Y}, {be.Y, be.X}} {
+							if id, ok := unparen(pr[0]).(*ast.Ident); ok && info.Uses[id] == srcObj {
+								if o := captured(pr[1]); o != nil {
+									key = o
+								}
+							}
+						}
+					}
+					if key != nil {
+						reason = "the branch does not record " + src.Name + " in " + key.Name()
+						for _, st := range blk.List {
+							if a2, ok := st.(*ast.AssignStmt); ok && len(a2.Lhs) == 1 && len(a2.Rhs) == 1 && captured(a2.Lhs[0]) == key {
+								if id, ok := unparen(a2.Rhs[0]).(*ast.Ident); ok && info.Uses[id] == srcObj {
+									good = true
+								}
+							}
+						}
+					}
+				}
+				if !good {
+					bad++
+					if firstBad == nil {
+						firstBad = as
+						why = reason
+					}
+				}
+				return true
+			})
+			return true
+		})
+		if n == 0 {
+			continue
+		}
+		if bad == 0 {
+			c.Ob(rule, fkey, fd, true, fmt.Sprintf("%d memoised callees: each is refreshed under `remembered != current` and records the current value", n))
+		} else {
+			c.Ob(rule, fkey, firstBad, false, fmt.Sprintf("%d of %d memoised callees are not refreshed when the slot changes: %s", bad, n, why))
+		}
+	}
+	if total < 100 {
+		c.Ob(rule, "fast/memoised-callees", nil, false, fmt.Sprintf("%d memoised callees found, at least 100 expected", total))
+	}
+}
+
+// ruleBindReuseSlots (NB2): a redeclared name keeps the slot index of the old binding only when the old binding
+// has at least as many slots as the new one. In Env.Ints a complex128 takes two slots and everything else one, so
+// reuse must be excluded when the new type is complex128 and the old one is not. The conditions on the way to
+// `index = bind.Desc.Index()` in CompBinds.NewBind are evaluated as a boolean formula over the two facts
+// "old kind is Complex128" and "new kind is Complex128" (any other sub-condition is left free): with old = no,
+// new = yes the formula must be false for every value of the free sub-conditions.
+func ruleBindReuseSlots(c *Ctx, rule string) {
+	const fkey = "fast.CompBinds.NewBind"
+	pk := c.P.Pkg("fast")
+	fd := c.P.Func(fkey)
+	if pk == nil || fd == nil || fd.Body == nil {
+		c.Ob(rule, fkey, nil, false, "anchor function not found")
+		return
+	}
+	info := pk.TypesInfo
+	var newT types.Object
+	for _, f := range fd.Type.Params.List {
+		for _, nm := range f.Names {
+			if o := info.Defs[nm]; o != nil && isNamedType(o.Type(), "xreflect", "Type") {
+				newT = o
+			}
+		}
+	}
+	if newT == nil {
+		c.Ob(rule, fkey, fd, false, "no parameter of type xreflect.Type: cannot tell the new binding's type")
+		return
+	}
+	parent := map[ast.Node]ast.Node{}
+	var stack []ast.Node
+	ast.Inspect(fd.Body, func(m ast.Node) bool {
+		if m == nil {
+			stack = stack[:len(stack)-1]
+			return true
+		}
+		if len(stack) > 0 {
+			parent[m] = stack[len(stack)-1]
+		}
+		stack = append(stack, m)
+		return true
+	})
+	// atom classification
+	atom := func(e ast.Expr) (name string, negated bool) {
+		be, ok := unparen(e).(*ast.BinaryExpr)
+		if !ok || (be.Op != token.EQL && be.Op != token.NEQ) {
+			return "", false
+		}
+		for _, pr := range [][2]ast.Expr{{be.X, be.Y}, {be.Y, be.X}} {
+			o := usedObj(info, pr[1])
+			if _, isConst := o.(*types.Const); !isConst || o.Name() != "Complex128" {
+				continue
+			}
+			call, ok := unparen(pr[0]).(*ast.CallExpr)
+			if !ok {
+				continue
+			}
+			se, ok := unparen(call.Fun).(*ast.SelectorExpr)
+			if !ok || se.Sel.Name != "Kind" {
+				continue
+			}
+			if id, ok := unparen(se.X).(*ast.Ident); ok && info.Uses[id] == newT {
+				return "new", be.Op == token.NEQ
+			}
+			if s2, ok := unparen(se.X).(*ast.SelectorExpr); ok && s2.Sel.Name == "Type" && isNamedType(info.TypeOf(s2.X), "fast", "Bind") {
+				return "old", be.Op == token.NEQ
+			}
+		}
+		return "", false
+	}
+	var free []string
+	freeIdx := map[string]int{}
+	var eval func(e ast.Expr, old, nw bool, mask int) bool
+	eval = func(e ast.Expr, old, nw bool, mask int) bool {
+		e = unparen(e)
+		switch x := e.(type) {
+		case *ast.UnaryExpr:
+			if x.Op == token.NOT {
+				return !eval(x.X, old, nw, mask)
+			}
+		case *ast.BinaryExpr:
+			switch x.Op {
+			case token.LAND:
+				return eval(x.X, old, nw, mask) && eval(x.Y, old, nw, mask)
+			case token.LOR:
+				return eval(x.X, old, nw, mask) || eval(x.Y, old, nw, mask)
+			}
+			if name, neg := atom(x); name != "" {
+				v := old
+				if name == "new" {
+					v = nw
+				}
+				return v != neg
+			}
+		}
+		k := exprString(e)
+		i, ok := freeIdx[k]
+		if !ok {
+			i = len(free)
+			freeIdx[k] = i
+			free = append(free, k)
+		}
+		return mask&(1<<uint(i)) != 0
+	}
+	n := 0
+	ast.Inspect(fd.Body, func(m ast.Node) bool {
+		as, ok := m.(*ast.AssignStmt)
+		if !ok || len(as.Lhs) != 1 || len(as.Rhs) != 1 {
+			return true
+		}
+		call, ok := unparen(as.Rhs[0]).(*ast.CallExpr)
+		if !ok {
+			return true
+		}
+		se, ok := unparen(call.Fun).(*ast.SelectorExpr)
+		if !ok || se.Sel.Name != "Index" {
+			return true
+		}
+		s2, ok := unparen(se.X).(*ast.SelectorExpr)
+		if !ok || s2.Sel.Name != "Desc" || !isNamedType(info.TypeOf(s2.X), "fast", "Bind") {
+			return true
+		}
+		n++
+		// conditions on the way
+		type cnd struct {
+			e   ast.Expr
+			neg bool
+		}
+		var conds []cnd
+		for p := ast.Node(as); p != nil; p = parent[p] {
+			if ifs, ok := parent[p].(*ast.IfStmt); ok {
+				if p == ast.Node(ifs.Body) {
+					conds = append(conds, cnd{ifs.Cond, false})
+				} else if p == ifs.Else {
+					conds = append(conds, cnd{ifs.Cond, true})
+				}
+			}
+		}
+		free = nil
+		freeIdx = map[string]int{}
+		// first pass registers the free atoms
+		for _, cd := range conds {
+			eval(cd.e, false, true, 0)
+		}
+		ok2 := len(free) <= 10
+		reach := false
+		if ok2 {
+			for mask := 0; mask < 1<<uint(len(free)); mask++ {
+				all := true
+				for _, cd := range conds {
+					if eval(cd.e, false, true, mask) == cd.neg {
+						all = false
+					}
+				}
+				if all {
+					reach = true
+				}
+			}
+		}
+		mentions := false
+		for _, cd := range conds {
+			ast.Inspect(cd.e, func(x ast.Node) bool {
+				if e, ok := x.(ast.Expr); ok {
+					if nm, _ := atom(e); nm != "" {
+						mentions = true
+					}
+				}
+				return true
+			})
+		}
+		detail := "the old slot index is reused only when the old binding has at least as many slots: unreachable for old kind != Complex128, new kind == Complex128"
+		good := ok2 && !reach && mentions
+		if !good {
+			detail = "the old slot index is reused although the new binding may need two slots (complex128) where the old one has one: the conditions on the way do not exclude old kind != Complex128 with new kind == Complex128"
+		}
+		c.Ob(rule, fmt.Sprintf("%s/reuse#%d", fkey, n), as, good, detail)
+		return true
+	})
+	if n == 0 {
+		c.Ob(rule, fkey+"/reuse", fd, true, "no binding index is reused on redeclaration: nothing to check")
+	}
+}
+
+// ruleElementSteps (D5): the compile-time type and the run-time value of an indexed operand descend in step. A
+// function that computes its result type as obj.Type.Elem()...Elem() (k steps: pointer -> array -> element is two)
+// and captures objfun := obj.AsX1() must, in every run-time closure that evaluates objfun(env), descend k steps from
+// that value (Elem, Index, MapIndex) before it returns or stores: one step fewer indexes the pointer itself.
+func ruleElementSteps(c *Ctx, rule string, files []string) {
+	pk := c.P.Pkg("fast")
+	if pk == nil {
+		c.Fatal("package fast not loaded")
+		return
+	}
+	info := pk.TypesInfo
+	want := map[string]bool{}
+	for _, f := range files {
+		want[f] = true
+	}
+	isStep := map[string]bool{"Elem": true, "Index": true, "MapIndex": true}
+	total := 0
+	for _, fd := range c.P.FuncsOf("fast") {
+		if fd.Body == nil || !want[baseName(pk.Fset, fd)] {
+			continue
+		}
+		// k: t := obj.Type.Elem()...Elem() at the top level of the function
+		var objObj types.Object
+		k := 0
+		var funObj types.Object
+		for _, st := range fd.Body.List {
+			as, ok := st.(*ast.AssignStmt)
+			if !ok || as.Tok != token.DEFINE || len(as.Lhs) != 1 || len(as.Rhs) != 1 {
+				continue
+			}
+			e := unparen(as.Rhs[0])
+			steps := 0
+			for {
+				call, ok := e.(*ast.CallExpr)
+				if !ok || len(call.Args) != 0 {
+					break
+				}
+				se, ok := unparen(call.Fun).(*ast.SelectorExpr)
+				if !ok || se.Sel.Name != "Elem" {
+					break
+				}
+				steps++
+				e = unparen(se.X)
+			}
+			if steps > 0 {
+				if se, ok := e.(*ast.SelectorExpr); ok && se.Sel.Name == "Type" {
+					if id, ok := unparen(se.X).(*ast.Ident); ok && isNamedType(info.TypeOf(id), "fast", "Expr") {
+						if _, isParam := info.Uses[id].(*types.Var); isParam && k == 0 {
+							objObj, k = info.Uses[id], steps
+						}
+					}
+				}
+				continue
+			}
+			if call, ok := e.(*ast.CallExpr); ok && len(call.Args) == 0 {
+				if se, ok := unparen(call.Fun).(*ast.SelectorExpr); ok && se.Sel.Name == "AsX1" {
+					if id, ok := unparen(se.X).(*ast.Ident); ok && objObj != nil && info.Uses[id] == objObj {
+						if lid, ok := as.Lhs[0].(*ast.Ident); ok {
+							funObj = info.Defs[lid]
+						}
+					}
+				}
+			}
+		}
+		if k == 0 || funObj == nil {
+			continue
+		}
+		n := 0
+		ast.Inspect(fd.Body, func(nd ast.Node) bool {
+			lit, ok := nd.(*ast.FuncLit)
+			if !ok || !isSigWithEnv(info.TypeOf(lit)) {
+				return true
+			}
+			// the call objfun(env) in this closure
+			var root *ast.CallExpr
+			inspectCalls(lit.Body, func(call *ast.CallExpr) {
+				if id, ok := unparen(call.Fun).(*ast.Ident); ok && info.Uses[id] == funObj && root == nil {
+					root = call
+				}
+			})
+			if root == nil {
+				return true
+			}
+			// follow the value: method chain on the call, then through locals defined from it
+			parent := map[ast.Node]ast.Node{}
+			var stack []ast.Node
+			ast.Inspect(lit.Body, func(m ast.Node) bool {
+				if m == nil {
+					stack = stack[:len(stack)-1]
+					return true
+				}
+				if len(stack) > 0 {
+					parent[m] = stack[len(stack)-1]
+				}
+				stack = append(stack, m)
+				return true
+			})
+			var chainUp func(e ast.Node) (int, ast.Node)
+			chainUp = func(e ast.Node) (int, ast.Node) {
+				steps := 0
+				cur := e
+				for {
+					p := parent[cur]
+					if pe, ok := p.(*ast.ParenExpr); ok {
+						cur = pe
+						continue
+					}
+					se, ok := p.(*ast.SelectorExpr)
+					if !ok || se.X != cur {
+						return steps, cur
+					}
+					call, ok := parent[se].(*ast.CallExpr)
+					if !ok || call.Fun != ast.Expr(se) {
+						return steps, cur
+					}
+					if isStep[se.Sel.Name] {
+						steps++
+					}
+					cur = call
+				}
+			}
+			best := -1
+			var visit func(e ast.Node, acc int, depth int)
+			visit = func(e ast.Node, acc int, depth int) {
+				s, top := chainUp(e)
+				acc += s
+				if acc > best {
+					best = acc
+				}
+				if depth > 4 {
+					return
+				}
+				// top is the whole value expression: is it the definition of a local?
+				if as, ok := parent[top].(*ast.AssignStmt); ok && len(as.Lhs) == 1 && len(as.Rhs) == 1 && as.Rhs[0] == top {
+					if id, ok := as.Lhs[0].(*ast.Ident); ok {
+						obj := info.ObjectOf(id)
+						ast.Inspect(lit.Body, func(u ast.Node) bool {
+							if uid, ok := u.(*ast.Ident); ok && info.Uses[uid] == obj && obj != nil {
+								visit(uid, acc, depth+1)
+							}
+							return true
+						})
+					}
+				}
+			}
+			visit(root, 0, 0)
+			n++
+			total++
+			c.Ob(rule, fmt.Sprintf("%s/closure#%d", funcKey(pk, fd), n), lit, best == k, fmt.Sprintf("the result type descends %d steps from the operand's type; the closure descends %d steps from the operand's value", k, best))
+			return true
+		})
+	}
+	if total < 8 {
+		c.Ob(rule, "fast/element-steps", nil, false, fmt.Sprintf("%d closures examined, at least 8 expected", total))
+	}
+}
+
+// ruleDeadBranchTruncate (TR1): when the condition of an `if` or `for` is a constant, the code of the branch that can
+// never run is compiled (for its errors) and then dropped with Code.Truncate(L). What is dropped is everything
+// compiled since `L = c.Code.Len()`. Under the guard "condition is constant false" (`fun == nil && !flag`) that
+// stretch must compile the body and not the else branch; under "constant true" (`fun == nil && flag`) it must
+// compile the else branch and not the body.
+func ruleDeadBranchTruncate(c *Ctx, rule string) {
+	pk := c.P.Pkg("fast")
+	if pk == nil {
+		c.Fatal("package fast not loaded")
+		return
+	}
+	info := pk.TypesInfo
+	n := 0
+	for _, fd := range c.P.FuncsOf("fast") {
+		if fd.Body == nil {
+			continue
+		}
+		var di *defIndex
+		var nodeParam types.Object
+		for _, f := range fd.Type.Params.List {
+			for _, nm := range f.Names {
+				if o := info.Defs[nm]; o != nil && strings.HasPrefix(o.Type().String(), "*go/ast.") {
+					nodeParam = o
+				}
+			}
+		}
+		k := 0
+		ast.Inspect(fd.Body, func(nd ast.Node) bool {
+			ifs, ok := nd.(*ast.IfStmt)
+			if !ok {
+				return true
+			}
+			var trunc *ast.CallExpr
+			for _, st := range ifs.Body.List {
+				if es, ok := st.(*ast.ExprStmt); ok {
+					if call, ok := es.X.(*ast.CallExpr); ok && funcFullName(calleeOf(info, call)) == "fast.Code.Truncate" && len(call.Args) == 1 {
+						trunc = call
+					}
+				}
+			}
+			if trunc == nil {
+				return true
+			}
+			n++
+			k++
+			key := fmt.Sprintf("%s/truncate#%d", funcKey(pk, fd), k)
+			if nodeParam == nil {
+				c.Ob(rule, key, trunc, false, "the function has no syntax-node parameter: cannot tell which branch is compiled")
+				return true
+			}
+			// guard polarity: a conjunct that is a bool identifier (constant true) or its negation (constant false)
+			polarity := ""
+			for _, a := range andAtoms(ifs.Cond) {
+				a = unparen(a)
+				if u, ok := a.(*ast.UnaryExpr); ok && u.Op == token.NOT {
+					if id, ok := unparen(u.X).(*ast.Ident); ok && isBoolType(info.TypeOf(id)) {
+						polarity = "false"
+					}
+				} else if id, ok := a.(*ast.Ident); ok && isBoolType(info.TypeOf(id)) {
+					polarity = "true"
+				}
+			}
+			if polarity == "" {
+				c.Ob(rule, key, trunc, false, "the guard `"+exprString(ifs.Cond)+"` does not say whether the condition is constant true or constant false")
+				return true
+			}
+			label := exprString(trunc.Args[0])
+			// the recording of the label
+			var rec *ast.AssignStmt
+			ast.Inspect(fd.Body, func(m ast.Node) bool {
+				as, ok := m.(*ast.AssignStmt)
+				if !ok || len(as.Lhs) != 1 || len(as.Rhs) != 1 || as.Pos() > trunc.Pos() || exprString(as.Lhs[0]) != label {
+					return true
+				}
+				if call, ok := unparen(as.Rhs[0]).(*ast.CallExpr); ok && funcFullName(calleeOf(info, call)) == "fast.Code.Len" {
+					rec = as
+				}
+				return true
+			})
+			if rec == nil {
+				c.Ob(rule, key, trunc, false, "no `"+label+" = c.Code.Len()` precedes the truncation")
+				return true
+			}
+			if di == nil {
+				di = buildDefIndex(info, fd)
+			}
+			compiled := map[string]bool{}
+			inspectCalls(fd.Body, func(call *ast.CallExpr) {
+				if call.Pos() < rec.End() || call.Pos() > trunc.Pos() {
+					return
+				}
+				switch funcFullName(calleeOf(info, call)) {
+				case "fast.Comp.Block", "fast.Comp.Stmt":
+				default:
+					return
+				}
+				for _, arg := range call.Args {
+					ast.Inspect(arg, func(x ast.Node) bool {
+						switch e := x.(type) {
+						case *ast.SelectorExpr:
+							if id, ok := unparen(e.X).(*ast.Ident); ok && info.Uses[id] == nodeParam {
+								compiled[e.Sel.Name] = true
+							}
+						case *ast.Ident:
+							if d := di.single(info.Uses[e]); d != nil {
+								if se, ok := unparen(d).(*ast.SelectorExpr); ok {
+									if id, ok := unparen(se.X).(*ast.Ident); ok && info.Uses[id] == nodeParam {
+										compiled[se.Sel.Name] = true
+									}
+								}
+							}
+						}
+						return true
+					})
+				}
+			})
+			var names []string
+			for f := range compiled {
+				names = append(names, f)
+			}
+			sort.Strings(names)
+			good := false
+			if polarity == "false" {
+				good = compiled["Body"] && !compiled["Else"]
+			} else {
+				good = compiled["Else"] && !compiled["Body"]
+			}
+			c.Ob(rule, key, trunc, good, fmt.Sprintf("guard says the condition is constant %s; the stretch dropped by Truncate(%s) compiles %v", polarity, label, names))
+			return true
+		})
+	}
+	if n < 3 {
+		c.Ob(rule, "fast/truncations", nil, false, fmt.Sprintf("%d dead-branch truncations found, at least 3 expected", n))
+	}
+}
+
+func isBoolType(t types.Type) bool {
+	b, ok := t.Underlying().(*types.Basic)
+	return ok && b.Info()&types.IsBoolean != 0
 }
